@@ -122,3 +122,91 @@ Definition world_deliveries (w : world) (c : evclass) (p : Z) : Z :=
   | World cbs _ => notify_deliveries cbs c p
   | WorldError => -1
   end.
+
+(* ------------------------------------------------------------ rejected events (two or more pools) *)
+
+(* One listener per pool.  What a pool's listener is sent, in order, as event
+   ids (the global serial), when events are raised, pools dispatch, listeners
+   answer OK / FAIL and say READY.  A FAIL answer raises EventRejectedEvent(process,
+   event), which EVERY pool's handle_rejected sees; only the pool that owns the
+   process rebuffers the event (at the head). *)
+Record qstate := mkQ {
+  q_pe : list evclass;       (* pool_events *)
+  q_buf : list Z;            (* event_buffer, oldest first *)
+  q_busy : option Z;         (* process.event of the listener while BUSY *)
+  q_ready : bool;            (* listener_state = READY *)
+  q_sent : list Z;           (* envelopes written to the listener's stdin so far *)
+}.
+
+Inductive rop :=
+| REmit (c : evclass) (id : Z)     (* events.notify of an event of class c with serial id *)
+| RDispatch                        (* every pool's dispatch() *)
+| RAnswer (p : Z) (ok : bool)      (* listener of pool p writes RESULT 2\nOK / RESULT 4\nFAIL *)
+| RReady (p : Z).                  (* listener of pool p writes READY\n *)
+
+Definition q_emit (s : qstate) (c : evclass) (id : Z) : qstate :=
+  mkQ (q_pe s) (q_buf s ++ repeat id (Z.to_nat (Z.min 5 (deliveries (q_pe s) c)))) (q_busy s) (q_ready s) (q_sent s).
+
+Definition q_dispatch (s : qstate) : qstate :=
+  match q_ready s, q_buf s with
+  | true, h :: r => mkQ (q_pe s) r (Some h) false (q_sent s ++ [h])
+  | _, _ => s
+  end.
+
+(* handle_rejected(event) in pool q for a rejection by the listener of pool `owner` *)
+Definition q_handle_rejected (q : Z) (s : qstate) (owner : Z) (ev : Z) : qstate :=
+  if q =? owner then mkQ (q_pe s) (ev :: q_buf s) (q_busy s) (q_ready s) (q_sent s) else s.
+
+Definition q_answered (s : qstate) : qstate := mkQ (q_pe s) (q_buf s) None false (q_sent s).
+Definition q_set_ready (s : qstate) : qstate := mkQ (q_pe s) (q_buf s) (q_busy s) true (q_sent s).
+
+Definition pools := list (Z * qstate).
+
+Fixpoint pools_get (w : pools) (p : Z) : option qstate :=
+  match w with
+  | [] => None
+  | (q, s) :: r => if q =? p then Some s else pools_get r p
+  end.
+
+Definition rstep (w : pools) (o : rop) : pools :=
+  match o with
+  | REmit c id => map (fun e => (fst e, q_emit (snd e) c id)) w
+  | RDispatch => map (fun e => (fst e, q_dispatch (snd e))) w
+  | RReady p => map (fun e => (fst e, if fst e =? p then q_set_ready (snd e) else snd e)) w
+  | RAnswer p ok =>
+    match pools_get w p with
+    | Some sp =>
+      match q_busy sp with
+      | Some ev =>
+        (* the owner leaves BUSY; on FAIL the rejection is announced to every pool *)
+        let w1 := map (fun e => (fst e, if fst e =? p then q_answered (snd e) else snd e)) w in
+        if ok then w1
+        else map (fun e => (fst e, q_handle_rejected (fst e) (snd e) p ev)) w1
+      | None => w
+      end
+    | None => w
+    end
+  end.
+
+Definition rrun (w : pools) (l : list rop) : pools := fold_left rstep l w.
+
+Definition new_pool (pe : list evclass) : qstate := mkQ pe [] None false [].
+
+Definition sent_of (w : pools) (p : Z) : list Z :=
+  match pools_get w p with Some s => q_sent s | None => [] end.
+
+(* the same pool seen in isolation: it hears the emissions and dispatches, its own
+   listener, and nothing of the other pools *)
+Definition q_local (q : Z) (s : qstate) (o : rop) : qstate :=
+  match o with
+  | REmit c id => q_emit s c id
+  | RDispatch => q_dispatch s
+  | RReady p => if q =? p then q_set_ready s else s
+  | RAnswer p ok =>
+    if q =? p then
+      match q_busy s with
+      | Some ev => if ok then q_answered s else q_handle_rejected q (q_answered s) q ev
+      | None => s
+      end
+    else s
+  end.
